@@ -274,7 +274,7 @@ fn cli_case(ctx: &Ctx, tape: &[u8], rec: &Rec) -> Verdict {
     let Ok(reports) = run_passes(&ssa) else { return Ok(()) };
     let line_col = |off: usize| {
         let before = &c.r.src[..off.min(c.r.src.len())];
-        (1 + before.matches('\n').count(), 1 + before.len() - before.rfind('\n').map(|i| i + 1).unwrap_or(0))
+        (1 + before.matches('\n').count(), 1 + before[before.rfind('\n').map(|i| i + 1).unwrap_or(0)..].chars().count())
     };
     let mut want: std::collections::BTreeSet<(usize, usize, bool)> = std::collections::BTreeSet::new();
     for r in &reports {
